@@ -151,6 +151,9 @@ pub struct Cases {
 	pub max_total: usize,
 	pub max_case: usize,
 	pub skipped_big: usize,
+	/// share of the literal budget one registry type may use (0 = no quota), and where it started
+	pub quota: usize,
+	pub mark: usize,
 }
 fn fnv(s: &str) -> u64 {
 	let mut h = 0xcbf29ce484222325u64;
@@ -175,6 +178,8 @@ impl Cases {
 			max_total: 24 << 20,
 			max_case: 1 << 20,
 			skipped_big: 0,
+			quota: 0,
+			mark: 0,
 		}
 	}
 	/// returns false if the case was a duplicate
@@ -184,7 +189,7 @@ impl Cases {
 			return false;
 		}
 		// coqc reads ~30 KB of literal per millisecond: keep the whole run within budget
-		if term.len() > self.max_case || self.bytes + term.len() > self.max_total {
+		if term.len() > self.max_case || self.bytes + term.len() > self.max_total || (self.quota > 0 && self.bytes - self.mark + term.len() > self.quota) {
 			self.skipped_big += 1;
 			return false;
 		}
@@ -198,6 +203,10 @@ impl Cases {
 	}
 	pub fn len(&self) -> usize {
 		self.terms.len()
+	}
+	/// a new registry type starts: it gets its own share of the budget
+	pub fn begin_type(&mut self) {
+		self.mark = self.bytes;
 	}
 	pub fn write(&self, dir: &Path, prefix: &str, shards: usize) {
 		let n = self.terms.len();
